@@ -472,4 +472,4 @@ mod tests {
 
 #[cfg(kani)]
 #[path = "/verif/units/kani/seglog_segment_rw.rs"]
-mod verif_kani;
+pub(crate) mod verif_kani;
